@@ -97,15 +97,17 @@ def _routing(repo, rep):
     # the text branch delivers ('text', (token,)) for every token
     good = False
     for n in ast.walk(f.node):
-        if isinstance(n, ast.If) and "mode" in src(n.test) and \
-                "'text'" in src(n.test):
+        if isinstance(n, (ast.If, ast.IfExp)) and "mode" in src(n.test) \
+                and "'text'" in src(n.test):
             # the branch taken in text mode, whichever way the test is
-            # written
+            # written (statement or conditional expression)
             pt, flip = L._CanonIf._pos(n.test)
             if src(pt).replace(" ", "") not in ("mode=='text'",
                                                 "'text'==mode"):
                 continue
             branch = n.orelse if flip else n.body
+            if isinstance(n, ast.IfExp):
+                branch = [ast.Expr(branch)]
             for g in ast.walk(ast.Module(body=branch, type_ignores=[])):
                 if isinstance(g, (ast.GeneratorExp, ast.ListComp)):
                     elt = src(g.elt).replace(" ", "")
